@@ -206,7 +206,15 @@ impl Acc {
 
     /// Run an oracle on an enumerated case; on failure record it.
     pub fn check<C: Serialize>(&mut self, case: &C, f: impl FnOnce(&mut Acc) -> R) -> bool {
-        match f(self) {
+        let sub_name = self.sub.clone();
+        let r = match crate::util::catch(|| f(self)) {
+            Ok(r) => r,
+            Err(loc) => match classify_panic(&sub_name, &loc) {
+                Ok(fail) => Err(fail),
+                Err(loc) => std::panic::panic_any(format!("harness panic at {loc}")),
+            },
+        };
+        match r {
             Ok(()) => true,
             Err(fail) => {
                 let v = serde_json::to_value(case).unwrap_or(Value::Null);
@@ -255,7 +263,8 @@ impl Acc {
                 acc.counting = false;
             }
             let known = acc.known.clone();
-            match f(&case, acc) {
+            let sub_name = acc.sub.clone();
+            match guarded(&sub_name, &f, &case, acc) {
                 Ok(()) => Ok(()),
                 Err(fail) => {
                     if let Some(what) = known.lookup(&fail.sig) {
@@ -282,10 +291,11 @@ impl Acc {
             Ok(()) => {}
             Err(TestError::Fail(_, minimal)) => {
                 self.counting = false;
-                let mut r = f(&minimal, self);
+                let sub_name = self.sub.clone();
+                let mut r = guarded(&sub_name, &f, &minimal, self);
                 let mut tries = 0;
                 while r.is_ok() && tries < 300 {
-                    r = f(&minimal, self);
+                    r = guarded(&sub_name, &f, &minimal, self);
                     tries += 1;
                 }
                 self.counting = true;
@@ -310,6 +320,29 @@ impl Acc {
                     .push(format!("{}#{label}: proptest aborted: {why}", self.sub));
             }
         }
+    }
+}
+
+/// A panic while an oracle runs.  Harness code lives under /verif/harness: a panic located there
+/// is the harness's own (reported as a harness error, exit 2).  A panic located anywhere else -
+/// /repo, a dependency the library called, or the standard library on the library's behalf - means
+/// a library operation did not return: that breaks every property that promises a result.
+pub fn classify_panic(sub: &str, loc: &str) -> Result<Fail, String> {
+    if loc.contains("/verif/harness/") || loc.starts_with("src/") {
+        return Err(loc.to_string());
+    }
+    let prop = sub.chars().take(3).collect::<String>().to_uppercase();
+    Ok(Fail::new(format!("{prop}/panic/{}", crate::util::panic_site(loc)), format!("a library operation panicked instead of returning: {loc}")))
+}
+
+/// run an oracle, turning a library panic into a failure of the case
+fn guarded<C>(sub: &str, f: &impl Fn(&C, &mut Acc) -> R, case: &C, acc: &mut Acc) -> R {
+    match crate::util::catch(|| f(case, acc)) {
+        Ok(r) => r,
+        Err(loc) => match classify_panic(sub, &loc) {
+            Ok(fail) => Err(fail),
+            Err(loc) => std::panic::panic_any(format!("harness panic at {loc}")),
+        },
     }
 }
 
@@ -539,7 +572,12 @@ pub fn child_main(def: PropertyDef, sub_name: &str, tier: Tier, seed: u64, verif
             crate::rng::set_seeded(mix(seed, fnv(sub.name.as_bytes())));
             let r = std::panic::catch_unwind(std::panic::AssertUnwindSafe(|| (sub.run)(&mut acc)));
             if let Err(p) = r {
-                acc.harness_errors.push(format!("{}: sub-check panicked outside an oracle: {}", sub.name, crate::util::panic_message(&p)));
+                let msg = crate::util::panic_message(&p);
+                let loc = crate::util::last_panic_loc().unwrap_or_else(|| msg.clone());
+                match classify_panic(&sub.name, &loc) {
+                    Ok(fail) if !msg.starts_with("harness panic at") => acc.fail(fail, json!({"note": "panic outside a replayable case; re-run the sub-check", "sub": sub.name})),
+                    _ => acc.harness_errors.push(format!("{}: sub-check panicked outside an oracle: {msg}", sub.name)),
+                }
             }
             println!("ACC {}", serde_json::to_string(&acc.to_wire()).unwrap());
             return 0;
@@ -590,8 +628,13 @@ pub fn run_property(def: PropertyDef, tier: Tier, seed: u64, verif_dir: &str, on
                         let r = std::panic::catch_unwind(std::panic::AssertUnwindSafe(|| (sub.run)(&mut acc)));
                         if let Err(p) = r {
                             let msg = crate::util::panic_message(&p);
-                            acc.harness_errors
-                                .push(format!("{}: sub-check panicked outside an oracle: {msg}", sub.name));
+                            let loc = crate::util::last_panic_loc().unwrap_or_else(|| msg.clone());
+                            match classify_panic(&sub.name, &loc) {
+                                Ok(fail) if !msg.starts_with("harness panic at") => {
+                                    acc.fail(fail, json!({"note": "panic outside a replayable case; re-run the sub-check", "sub": sub.name}));
+                                }
+                                _ => acc.harness_errors.push(format!("{}: sub-check panicked outside an oracle: {msg}", sub.name)),
+                            }
                         }
                     }
                     crate::rng::set_passthrough();
@@ -641,6 +684,16 @@ pub fn run_property(def: PropertyDef, tier: Tier, seed: u64, verif_dir: &str, on
         samples = (0..24).map(|i| samples[(i as f64 * step) as usize].clone()).collect();
     }
 
+    // one root cause usually fails many cases: keep at most two replay files per signature
+    let total_violations = violations.len();
+    {
+        let mut seen: BTreeMap<String, u32> = BTreeMap::new();
+        violations.retain(|v| {
+            let n = seen.entry(v.sig.clone()).or_insert(0);
+            *n += 1;
+            *n <= 2
+        });
+    }
     // write replay files
     let mut viol_lines = Vec::new();
     for v in &violations {
@@ -681,6 +734,7 @@ pub fn run_property(def: PropertyDef, tier: Tier, seed: u64, verif_dir: &str, on
         "assumptions": def.assumptions,
         "wall_s": (wall*100.0).round()/100.0,
         "violations": violations.len(),
+        "violating_cases_before_deduplication": total_violations,
     });
     let _ = std::fs::create_dir_all(format!("{verif_dir}/evidence"));
     let _ = std::fs::write(
